@@ -75,10 +75,23 @@ def check_case(case):
                 stops.append(oc.best_of(solution))
         run = oc.Run(base, fail_at=k, exc=oc.EXC[en], listeners=[Rec()])
         sol = None
+        route = f[2] if len(f) > 2 else None
+        nsolves = 1
         try:
+            if isinstance(route, int) and 1 <= route <= k - 1:
+                # `route` trials are made through DoGlobalIteration first: the failing evaluation is then the (k - route)-th one made
+                # inside Solve (the FIRST one when route == k - 1)
+                run.iterate(route)
+            elif route == "resume" and k >= 3:
+                # a first Solve with the budget k - 1 ends normally; the budget is raised in place and Solve is called again: its
+                # very first evaluation fails
+                run.solver.parameters.itersLimit = k - 1
+                run.solve()
+                run.solver.parameters.itersLimit = base["lim"]
+                nsolves = 2
             sol = run.solve()
         except BaseException as e:            # noqa
-            fail("solve-returns", {"escaped": repr(e), "k": k}, f)
+            fail("solve-returns", {"escaped": repr(e), "k": k, "route": route}, f)
             continue
         g = run.glog()
         attempted = run.problem.ncalls_global
@@ -108,7 +121,7 @@ def check_case(case):
         if len(items) != k + 1 or run.solver.searchData.GetCount() != k + 1 or n_at != 0:
             fail("failed-point-not-recorded", {"k": k, "items": len(items), "expected_items": k + 1,
                                                "failed_x": xk, "items_at_failed_x": n_at}, f)
-        if len(stops) != 1 or stops[0] != (point, value):
+        if len(stops) != nsolves or stops[-1] != (point, value):
             fail("listener-stop", {"k": k, "OnMethodStop_calls": len(stops), "seen": stops[:1], "returned": [point, value]}, f)
         if len(vs) > 12:
             break
@@ -128,6 +141,13 @@ def gen(r, tier):
     else:
         ks = sorted({r.randint(2, max(2, case["lim"])) for _ in range(4)} | {2})
         case["fail"] = [[k, r.choice(names)] for k in ks]
+    # how the failing evaluation is reached: plain Solve, after `j` trials made by DoGlobalIteration, or in a second Solve
+    for f in case["fail"]:
+        u = r.random()
+        if u < 0.25 and f[0] >= 2:
+            f.append(r.choice([f[0] - 1, r.randint(1, f[0] - 1)]))
+        elif u < 0.4 and f[0] >= 3:
+            f.append("resume")
     return case
 
 
@@ -147,10 +167,12 @@ def run(tier, r):
         oc.bump(stats, "dim%d" % case["n"])
         oc.bump(stats, "failure_right_after_new_optimum", info.get("after_new_optimum", 0))
         base = oc.case_key({k: v for k, v in case.items() if k != "fail"})
-        for k, en in case["fail"]:
+        for f_ in case["fail"]:
+            k, en = f_[0], f_[1]
             if 2 <= k <= info.get("T", 0):
                 oc.bump(stats, "exc_" + en)
-                key = (base, k, en)
+                oc.bump(stats, "route_" + ("solve" if len(f_) < 3 else ("resume" if f_[2] == "resume" else "steps_first")))
+                key = (base, k, en, str(f_[2:]))
                 if key not in keys:
                     keys.add(key)
                     if k >= 3:
